@@ -104,3 +104,16 @@ def aligned_spec(stream: bytes, delimiter: int, every: int = 1, offset: int = 1)
             if n % every == 0 and 0 < i + offset < len(stream):
                 cuts.append(i + offset)
     return ("cuts", cuts)
+
+
+def structural_spec(stream: bytes, rng, flag: int = 0x7E, esc: int = 0x7D):
+    """Calls that begin with a delimiter AND end right after an escape octet: a cut before (a random half of) the flags and after
+    (a random half of) the escape octets of the stream."""
+    cuts = set()
+    for i, b in enumerate(stream):
+        if b == flag and rng.random() < 0.5:
+            cuts.add(i)
+        elif b == esc and rng.random() < 0.5:
+            cuts.add(i + 1)
+    cuts = sorted(c for c in cuts if 0 < c < len(stream))
+    return ("cuts", cuts) if cuts else ("none",)
